@@ -123,7 +123,7 @@ def register(spec):
       requires=['all(implies(0 <= i and i < %s, self.transform_functions[i] != None) for i in Int)' % n_tf],
       modifies=['ghost:tflog', 'ghost:dlog', 'ghost:log', 'ghost:cnt', 'ghost:alive', 'ghost:alloc_World',
                 'World._events', 'World._handlers', 'World._event_queue', 'World._dispatch_enabled',
-                'World._components', 'World._entities', 'World._dead_entities', 'World._sorted_processors',
+                'World._components', 'World._entities', 'World._dead_entities', 'World._never', 'World._sorted_processors',
                 'World._processors', 'World.id_generator', 'World.id_generator_factory'],
       open_effect=True, rely=[],
       ensures={
@@ -156,7 +156,7 @@ def register(spec):
         'same-list': 'tfs == self.transform_functions',
     }, havoc=['ghost:tflog', 'ghost:log', 'ghost:cnt', 'ghost:alive', 'World._events', 'World._handlers',
               'World._event_queue', 'World._dispatch_enabled', 'World._components', 'World._entities',
-              'World._dead_entities', 'World._sorted_processors', 'World._processors', 'World.id_generator',
+              'World._dead_entities', 'World._never', 'World._sorted_processors', 'World._processors', 'World.id_generator',
               'World.id_generator_factory'])
 
 
@@ -401,7 +401,7 @@ def register_populate(spec):
     np_, ne_ = 'len(%s)' % P, 'len(%s)' % E
     LOGS = ['ghost:pklog', 'ghost:cklog', 'ghost:aplog', 'ghost:ceworld', 'ghost:ceids', 'ghost:cecomps']
     WSTATE = ['world._sorted_processors', 'world._processors', 'world._events', 'world._handlers',
-              'world._event_queue', 'world._components', 'world._entities', 'world._dead_entities',
+              'world._event_queue', 'world._components', 'world._entities', 'world._dead_entities', 'world._never',
               'world.id_generator', 'world.id_generator_factory', 'ghost:log', 'ghost:cnt',
               'ghost:alloc_Proc', 'ghost:alloc_Comp', 'ghost:alive', 'Proc.priority', 'Proc.world']
 
